@@ -35,6 +35,8 @@ def scenarios(tier):
     for table in ('face_edge', 'edge_face', 'face_face'):
         for si in (0, 1):
             out.append({'name': f'clipped mesh: {table} renumbered[start_index={si}]', 'fn': 'scn_optional_table', 'kwargs': {'table': table, 'si': si}})
+    out.append({'name': 'clipped mesh: face_face renumbered[start_index=1, mesh without any edge information]', 'fn': 'scn_optional_table',
+                'kwargs': {'table': 'face_face', 'si': 1, 'edges': False}})
     for ci, cfg in enumerate(C08.GRID_CONFIGS):
         out.append({'name': f'clipped grid keeps the geometry of selected cells[{cfg[0]}]', 'fn': 'scn_grid_geometry', 'kwargs': {'ci': ci}})
     for conv, kw in (('CFGrid1D', {}), ('CFGrid1D', {'bounds': True}), ('CFGrid1D', {'bounds': 'coords'}), ('CFGrid2D', {'bounds': True}), ('CFGrid2D', {'bounds': 'coords'}),
@@ -56,11 +58,11 @@ def core_attr(it, mod, klass, name):
     return it.getattr(cls(it, mod, klass), name)
 
 
-def scn_optional_table(c, table, si):
+def scn_optional_table(c, table, si, edges=True):
     """face_edge / edge_face / face_face: rows of kept faces / edges, entries renumbered, entries naming a dropped element become missing"""
     from pyvc.lib.stdlib import OpaqueValue, PathModel
     it = new_interp(use=[])
-    ds = inputs.ugrid_mesh(c, fill='int_fill', start_index=si, edges='both', tables=(table,))
+    ds = inputs.ugrid_mesh(c, fill='int_fill', start_index=si, edges='both' if edges else 'none', tables=(table,))
     info = ds.info
     rowkind, colkind = table.split('_')
     rowdim, width = ('nface', info['maxn']) if rowkind == 'face' else ('nedge', 2)
@@ -68,11 +70,12 @@ def scn_optional_table(c, table, si):
     upper = info['n' + colkind]
     t = Table(c, table, nrows, width, 'int_fill', si, False, rowdim, 'maxn' if rowkind == 'face' else 'Two', upper)
     ds._vars[table] = t.variable
-    en = Table(c, 'edge_node', info['nedge'], 2, 'none', si, False, 'nedge', 'Two', info['nnode'])
-    ds._vars['edge_node'] = en.variable
+    if edges:
+        en = Table(c, 'edge_node', info['nedge'], 2, 'none', si, False, 'nedge', 'Two', info['nnode'])
+        ds._vars['edge_node'] = en.variable
     conv = it.instantiate(cls(it, 'emsarray.conventions.ugrid', 'UGrid'), [ds], {})
-    mask, sels, fillv = C08._mesh_mask(c, ds, True)
-    for n_ in (info['nnode'], info['nface'], info['nedge']):
+    mask, sels, fillv = C08._mesh_mask(c, ds, edges)
+    for n_ in (info['nnode'], info['nface']) + ((info['nedge'],) if edges else ()):
         c.assume(n_ < fillv - 1)
     keep = {k: v[0] for k, v in sels.items()}
     selR, selC = sels[rowkind][1], sels[colkind][1]
@@ -97,6 +100,9 @@ def scn_optional_table(c, table, si):
     c.check(f'{table}: saved as an integer table with a fill value', getattr(vo.encoding.get('dtype'), 'kind', None) == 'i' and vo.encoding.get('_FillValue') is not None and '_FillValue' not in vo.attrs)
     c.check(f'{table}: one row per kept {rowkind}', s_eq(vo.arr.shape[0], selR.count))
     got = vo.arr.fn((k, j))
+    c.check(f'{table}: entries are renumbered indexes with missing entries (the masked-integer representation), not the raw old numbers', isinstance(got, SFloat))
+    if not isinstance(got, SFloat):
+        raise PathEnd()
     survives = mk_bool(keep[colkind](zint(val)))
     c.check(f'{table}: an entry is present exactly when row sel(k) has it and the {colkind} it names survives', s_eq(s_not(got.is_nan()), s_and(present, survives)))
     c.check(f'{table}: a present entry is the NEW index of that {colkind} (+ start_index): it refers to a surviving element under the new numbering',
